@@ -237,16 +237,45 @@ Definition unit_cube (lo hi : list Q) (p : point) : point :=
    What each suggestion endpoint hands to its model, given the one-hot pending points of the request. *)
 Inductive parallelism := ConstantLiar | QEI.
 Record gp_feed := mkFeed { f_hist : hist; f_pending_set : list point; f_use_qei : bool }.
-(* GPView.form_single_gaussian_process + GpNextPointsCategorical.view: lies under constant liar, else the qEI pending set *)
+(* GPView.form_single_gaussian_process + GpNextPointsCategorical.view, for a GP of the acquisition function's predictor (the single
+   GP, or each component of the sum of GPs).  [lie] is the lie value the view hands to form_single_gaussian_process (the scaled
+   worst non-failed value of the metric over the whole request).
+   - constant liar: form_single_gaussian_process appends the pending points with THAT lie value and the lie noise;
+   - qEI with parallel EI usable (pending points, no tasks): the data stay as built, the pending points are the pending set of
+     parallel EI;
+   - qEI requested but parallel EI unusable (pending points, multitask): view() calls
+     acquisition_function.append_lie_locations(pending) -> predictor.append_lie_data(pending, constant_liar_min) before the
+     optimiser runs, i.e. gp_append with LieMin: the lie value is the maximum of THE MODEL'S OWN data at that moment (after the
+     multimetric filter has dropped rows, so it can be smaller than [lie], which is not used here), with the lie noise; the
+     dimension assertion fires before anything is written;
+   - qEI without pending points: nothing to feed. *)
 Definition feed_gp (par : parallelism) (multitask : bool) (h : hist) (pending : list point) (lie : Q) : gp_feed + err :=
-  let use_qei := match par with QEI => negb (Nat.eqb (length pending) 0) && negb multitask | ConstantLiar => false end in
   match par with
   | ConstantLiar =>
       match append_historical_data h pending (repeat lie (length pending)) (repeat lie_noise (length pending)) with
       | inl h' => inl (mkFeed h' [] false)
       | inr e => inr e
       end
-  | QEI => inl (mkFeed h (if use_qei then pending else []) use_qei)
+  | QEI =>
+      let requested := negb (Nat.eqb (length pending) 0) in          (* num_being_sampled > 0 and parallelism == PARALLEL_QEI *)
+      let use_qei := requested && negb multitask in                  (* ... and not self.task_cost_populated *)
+      if use_qei then inl (mkFeed h pending true)
+      else if requested then
+        match gp_append (mkGp h None) pending LieMin with
+        | (g, None) => inl (mkFeed (g_hist g) [] false)
+        | (_, Some e) => inr e
+        end
+      else inl (mkFeed h [] false)
+  end.
+(* The GPs under the failure model (constraint metrics, epsilon-constraint thresholds) only go through
+   form_single_gaussian_process: lies (with the view's lie value of that metric) under constant liar; under qEI they stay as built -
+   parallel EI with failures samples them at its pending set, and in the multitask fall-back append_lie_locations reaches the
+   predictor only (ExpectedImprovementWithFailures inherits it from ExpectedImprovement), exactly as for the picks inside the
+   constant-liar loop. *)
+Definition feed_failure_gp (par : parallelism) (h : hist) (pending : list point) (lie : Q) : hist + err :=
+  match par with
+  | ConstantLiar => append_historical_data h pending (repeat lie (length pending)) (repeat lie_noise (length pending))
+  | QEI => inl h
   end.
 (* SPENextPoints.view: sigopt_parzen_estimator.append_lies(list(pending)) -- into the greater set *)
 Definition feed_parzen (s : pz) (pending : list point) : pz * option err := pz_append s pending false.
